@@ -99,7 +99,8 @@ def g_params(phys):
 
 # --------------------------------------------------------------------------- profiles
 KINDS = ["mixed", "heating_only", "cooling_only", "zero_months", "first_day", "last_day", "same_day",
-         "last_hour_of_year", "plateau", "constant", "monthly_constant", "atlanta", "one_sided_months", "jan1_plateau"]
+         "last_hour_of_year", "plateau", "constant", "monthly_constant", "atlanta", "one_sided_months", "jan1_plateau",
+         "turn_of_year_heating", "turn_of_year_cooling"]
 
 
 def make_raw(kind: str, pseed: int):
@@ -173,6 +174,19 @@ def make_raw(kind: str, pseed: int):
             raw[h] = lvl * rng.uniform(0.98, 0.999)
         raw[rng.randrange(12, 22)] = lvl
         raw[23] = -sgn * scale * rng.uniform(2.0, 4.0)
+    elif kind in ("turn_of_year_heating", "turn_of_year_cooling"):
+        # one direction only; a sustained near-peak load over 31 December / 1 January whose maximum is on
+        # 1 January: a single pulse on day 0 of the first simulated month with a duration of 27..48 h
+        sgn = 1.0 if kind.endswith("heating") else -1.0
+        raw = [sgn * (0.05 * abs(x) + 0.02 * scale) for x in smooth()]
+        lvl = sgn * scale * rng.uniform(1.5, 3.0)
+        before, after = rng.randint(8, 24), rng.randint(18, 24)   # plateau hours on 31 Dec / 1 Jan
+        lo = rng.uniform(0.93, 0.985)
+        for h in range(8760 - before, 8760):
+            raw[h] = lvl * lo * rng.uniform(0.99, 1.0)
+        for h in range(0, after):
+            raw[h] = lvl * rng.uniform(0.985, 0.999)
+        raw[rng.randrange(2, after)] = lvl
     elif kind == "constant":
         v = rng.choice([-1, 1]) * scale
         raw = [v] * 8760
@@ -417,13 +431,14 @@ def compare_monthly(impl_rows, model_rows, dur_rel=1e-7):
 
 
 # --------------------------------------------------------------------------- oracles on the implementation's arrays
-def month_sums(raw):
+def month_sums(raw, year=2019):
     """Per-month rejection / extraction totals (kWh), peaks (kW), day of the first peak and net load of
     the input profile — no shared code with the implementation.  Totals: `math.fsum` of the given
     doubles (exact sum, rounded once) divided exactly by 1000; peaks and days exact."""
     out = []
+    starts = [oracle_month_end(m, year) for m in range(13)]  # hours before each month of calendar year `year`
     for m in range(12):
-        seg = raw[MONTH_START[m]:MONTH_START[m + 1]]
+        seg = raw[starts[m]:starts[m + 1]]
         cl = Fraction(math.fsum(-x for x in seg if x < 0)) / 1000
         hl = Fraction(math.fsum(x for x in seg if x >= 0)) / 1000
         rej = [-x if x < 0 else 0.0 for x in seg]
@@ -607,6 +622,7 @@ def random_recs(rng: random.Random, style: str):
     """12 arbitrary monthly records (cl, hl, pcl, phl, dayc, dayh, dcl, dhl) — not derived from a profile."""
     recs = []
     zero_room_month = rng.randrange(12) if rng.random() < 0.17 else -1
+    jan_single = rng.choice(["cool", "heat"]) if rng.random() < 0.3 else None
     for m in range(12):
         nd = DAYS[m]
         big = 10 ** rng.uniform(0, 4)
@@ -633,6 +649,12 @@ def random_recs(rng: random.Random, style: str):
             dayc = 0
         if style != "wild" and phl == 0.0:
             dayh = 0
+        if m == 0 and style != "wild" and jan_single:
+            # a single pulse on 1 January longer than 26 h: its centred start lies before hour 0
+            if jan_single == "cool":
+                pcl, phl, dayc, dayh, dcl = pcl or big, 0.0, 0, 0, rng.uniform(27.0, 48.0)
+            else:
+                pcl, phl, dayc, dayh, dhl = 0.0, phl or big, 0, 0, rng.uniform(27.0, 48.0)
         cl = pcl * rng.uniform(1.0, 300.0)
         hl = phl * rng.uniform(1.0, 300.0)
         recs.append((cl, hl, pcl, phl, dayc, dayh, dcl, dhl))
